@@ -54,7 +54,10 @@ class ExternalMementoFunctionBase(MementoFunctionBase, ABC):
     @property
     def cluster_name(self):
         """Name of the cluster to which this function belongs"""
-        return self._fn_reference.cluster_name
+        # `None` (the default cluster) while the function reference is still being built
+        return (
+            self._fn_reference.cluster_name if self._fn_reference is not None else None
+        )
 
     context = None  # type: InvocationContext
     "Invocation context for this function"
@@ -196,8 +199,6 @@ class UnboundExternalMementoFunction(ExternalMementoFunctionBase):
         parameter_names: Optional[List[str]] = None,
         fn_reference: Optional[FunctionReference] = None,
     ):
-        assert fn_reference or cluster_name is not None, "Cluster name is required"
-
         if fn_reference is None:
             fn_reference = FunctionReference(
                 memento_fn=self,
